@@ -90,6 +90,23 @@ def _impl_case(case):
                         if fail is None and (list(m.bytes()) != ref or mido.Message.from_bytes(m.bytes(), time=time) != m):
                             fail = f'after copy / deepcopy / pickle of {m!r} the original no longer round-trips: {vars(m)}'
                 if fail is None:
+                    # what from_bytes / from_hex returned belongs to the caller (a recorder stamps the arrival time, an editor
+                    # changes a value): decoding the same bytes again gives the message of the bytes
+                    for tm in (0, time):
+                        x = mido.Message.from_bytes(list(ref), time=tm)
+                        x.time = 31337
+                        for name in ('note', 'value', 'program', 'pitch', 'pos', 'song', 'frame_value', 'control', 'velocity'):
+                            if hasattr(x, name):
+                                setattr(x, name, 1)
+                        if t == 'sysex':
+                            x.data = (9,)
+                        y = mido.Message.from_bytes(list(ref), time=tm)
+                        z = mido.Message.from_hex(m.hex(), time=tm)
+                        if not (y == m.copy(time=tm) and z == m.copy(time=tm) and list(y.bytes()) == ref):
+                            fail = (f'after the caller stamped and edited the message decoded from {ref[:12]} (time={tm!r}), decoding '
+                                    f'the same bytes again gives {vars(y)} / {vars(z)} instead of {vars(m.copy(time=tm))}')
+                            break
+                if fail is None:
                     bs.append(0x55)
                     bs[0] = 0
                     again = mido.Message(t, time=time, **d).bytes()
